@@ -39,6 +39,7 @@ PRELUDE = """
 from typing import Any, Callable, Literal, TypeVar
 from collections.abc import Sequence
 from dataclasses import dataclass
+from typing_extensions import NotRequired, TypedDict
 from c15_universe import A, B, C, a_inst, b_inst, c_inst
 T0 = TypeVar("T0")
 U0 = TypeVar("U0")
